@@ -7,12 +7,12 @@ func applyOps(tag string, cur *Mast, md *symModel, cfg *RemoteConfig, K int, nop
 	for i := 0; i < K; i++ {
 		switch verifChoose(tag+".op", nops) {
 		case 0:
-			k, v := verifNondetU64("k"), verifNondetU64("v")
+			k, v := verifNondetKey("k"), verifNondetVal("v")
 			err := cur.Insert(vctx, symKey{k}, v)
 			verifAssert("C01."+tag+".insert.err", err == nil)
 			md.put(k, v)
 		case 1:
-			k, v := verifNondetU64("k"), verifNondetU64("v")
+			k, v := verifNondetKey("k"), verifNondetVal("v")
 			f, mv := md.lookup(k)
 			expectOK := verifAnd(f, mv == v)
 			err := cur.Delete(vctx, symKey{k}, v)
